@@ -78,6 +78,23 @@ def expectFullL (o : InOpts) : List Tree → List Tree
   | t :: ts => expectFull o false t :: expectFullL o ts
 end
 
+mutual
+/-- TIGER-XML: as `expectFull`, but an ABSENT edge label stays absent (an `<edge>` without `label`: the code stores Python `None`,
+    repair P11); the other formats always carry an edge column, there `expectFull` puts the default -/
+def expectTiger (o : InOpts) (root : Bool) : Tree → Tree
+  | leaf n f =>
+    let (l, e) := if o.gfSplit then (fun (p : Str × Str) => (p.1, some p.2)) (gfSplitLabel (o.gfSeparator.getD DEFAULT_GF_SEP) f.label) else (f.label, f.edge)
+    let f' : Fields := { f with label := l, edge := e }
+    leaf n (if o.replaceParens then replaceParensFields f' else f')
+  | node f ks =>
+    let (l, e) := if o.gfSplit && !root then (fun (p : Str × Str) => (p.1, some p.2)) (gfSplitLabel (o.gfSeparator.getD DEFAULT_GF_SEP) f.label) else (f.label, if root then some (f.edge.getD DEFAULT_EDGE) else f.edge)
+    let f' : Fields := { f with label := l, edge := e }
+    node (if o.replaceParens then replaceParensFields f' else f') (expectTigerL o ks)
+def expectTigerL (o : InOpts) : List Tree → List Tree
+  | [] => []
+  | t :: ts => expectTiger o false t :: expectTigerL o ts
+end
+
 def runOpRead (op : String) (args : List String) : String :=
   match op, args with
   | "read_brackets", [opts, text] =>
@@ -107,6 +124,7 @@ def runOpRead (op : String) (args : List String) : String :=
           Tree.mapFields (fun s f => match s with
             | leaf n _ => { f with word := (t.findLeaf n).bind (·.fields.word) }
             | _ => f) (expectBr o t)
+        | "tigerxml" => expectTiger o true t
         | _ => expectFull o true t)
       -- the word slot of a constituent is not part of what a format carries (export stores "#5xx" there)
       let noConsWord := fun (t : Tree) => Tree.mapFields (fun s f => match s with
